@@ -346,7 +346,9 @@ func probe(host, port string, timeout time.Duration) (*discoveryInfo, error) {
 	defer conn.Close()
 
 	driver.lc.Info("Connection dialed", "host", host, "port", port)
-	c := llrp.NewClient(llrp.WithLogger(&edgexLLRPClientLogger{
+	// the probing client needs a timeout: without one, a host that accepts the
+	// connection but never speaks LLRP blocks Connect (and so the probe) for ever
+	c := llrp.NewClient(llrp.WithTimeout(timeout), llrp.WithLogger(&edgexLLRPClientLogger{
 		devName: "probe-" + host,
 		lc:      driver.lc,
 	}))
